@@ -35,6 +35,51 @@ def worker(inst):
     return out
 
 
+def memo_class_worker(inst):
+    """memoize never returns a result computed for different arguments - the term CLASS is one of the arguments: two
+    user-defined term classes (funsor.factory.make_funsor) applied to the same tensor inside one memoize block"""
+    from harness.oblig import decide
+
+    def ob(mk):
+        from collections import OrderedDict
+        import funsor
+        from funsor import Bint, Tensor
+        from funsor.factory import Fresh, make_funsor
+        from funsor.interpretations import eager, memoize
+        from funsor.terms import Funsor
+        from symx.symarray import as_obj
+
+        @make_funsor
+        def VDouble(x: Funsor) -> Fresh[lambda x: x]:
+            return None
+
+        @make_funsor
+        def VSquare(x: Funsor) -> Fresh[lambda x: x]:
+            return None
+        eager.register(VDouble, Tensor)(lambda x: x + x)
+        eager.register(VSquare, Tensor)(lambda x: x * x)
+        X = mk.array("x", (3,), "real")
+        t = Tensor(X, OrderedDict(i=Bint[3]))
+        order = inst[1]
+        with memoize():
+            if order == "double_first":
+                d = VDouble(t)
+                s_ = VSquare(t)
+            else:
+                s_ = VSquare(t)
+                d = VDouble(t)
+            d2 = VDouble(t)
+        Xc = as_obj(X)
+        import z3
+        same = d2 is d
+        return [([as_obj(d.data)[i] for i in range(3)], [Xc[i] + Xc[i] for i in range(3)]),
+                ([as_obj(s_.data)[i] for i in range(3)], [Xc[i] * Xc[i] for i in range(3)]),
+                (z3.BoolVal(same) if mk.symbolic else same, None)]
+    out = decide("memo_class|%s" % (inst[1],), ob, timeout_ms=8000, twin=False)
+    out["prog"] = out["label"]
+    return out
+
+
 def programs(tier, seed):
     from lang import gen
     rng = random.Random(seed)
@@ -94,6 +139,7 @@ def main():
                 n += 1
                 insts.append((s, theme, p, n % 13 == 0))
         chk.map("checks.c03", "worker", insts, chunksize=8, family="TCO=%s,TYPECHECK=%s" % (tco, tc))
+    chk.map("checks.c03", "memo_class_worker", [("memo_class", "double_first"), ("memo_class", "square_first")], chunksize=1, family="memo_class")
     os.environ.pop("FUNSOR_USE_TCO", None)
     os.environ.pop("FUNSOR_TYPECHECK", None)
     chk.bounds = dict(programs="C01 families (seeded subset)", schedules=scheds, reinterpreters="recursive and stack (FUNSOR_USE_TCO=0/1)",
